@@ -887,7 +887,6 @@ func recCheck(c *core.Ctx, p *load.Program, fns []*ssa.Function) {
 	}
 }
 
-
 // splitPrecondition discharges the step obligation of ua.split — step =
 // (j-i)/dims[level] — from its machine-checked calling discipline: split is
 // called only by itself and by Variant.Decode; the outer call is dominated by
